@@ -274,14 +274,17 @@ type State struct {
 	facts  map[string]bool
 	steps  []Step
 	fresh  map[string]bool // alloc keys created on this path
+	// dyn: the concrete type a term was given when it was converted to an interface (shared by all clones: a fact
+	// about the term, not about the path). Lets an invocation on a locally built collaborator be resolved.
+	dyn map[string]types.Type
 }
 
 func NewState() *State {
-	return &State{mem: map[string]*memEntry{}, facts: map[string]bool{}, fresh: map[string]bool{}}
+	return &State{mem: map[string]*memEntry{}, facts: map[string]bool{}, fresh: map[string]bool{}, dyn: map[string]types.Type{}}
 }
 
 func (s *State) Clone() *State {
-	n := &State{mem: make(map[string]*memEntry, len(s.mem)), facts: make(map[string]bool, len(s.facts)), seq: s.seq, fresh: make(map[string]bool, len(s.fresh))}
+	n := &State{mem: make(map[string]*memEntry, len(s.mem)), facts: make(map[string]bool, len(s.facts)), seq: s.seq, fresh: make(map[string]bool, len(s.fresh)), dyn: s.dyn}
 	for k, v := range s.mem {
 		n.mem[k] = v
 	}
@@ -762,6 +765,9 @@ func NewRootState(fn *ssa.Function, params []*Term, bindings []*Term, mem *State
 		st.seq = mem.seq
 		for k, v := range mem.facts {
 			st.facts[k] = v
+		}
+		if mem.dyn != nil {
+			st.dyn = mem.dyn
 		}
 	}
 	f := &frame{fn: fn, env: map[ssa.Value]*Term{}, id: ""}
@@ -1492,6 +1498,42 @@ func calleeKey(c *ssa.CallCommon) string {
 	return ""
 }
 
+// concreteMethod: the function implementing interface method m for the concrete type t (nil when it cannot be
+// resolved to a function with a body in the program).
+func concreteMethod(prog *ssa.Program, t types.Type, m *types.Func) *ssa.Function {
+	if prog == nil || t == nil || m == nil {
+		return nil
+	}
+	sel := prog.MethodSets.MethodSet(t).Lookup(m.Pkg(), m.Name())
+	if sel == nil {
+		return nil
+	}
+	if len(sel.Index()) != 1 {
+		return nil // promoted through embedding: needs a wrapper; left as an invocation
+	}
+	obj, ok := sel.Obj().(*types.Func)
+	if !ok {
+		return nil
+	}
+	// value receiver called through a pointer (or the reverse) needs an adapter: only the direct case is resolved
+	sig, _ := obj.Type().(*types.Signature)
+	if sig == nil || sig.Recv() == nil {
+		return nil
+	}
+	_, recvPtr := sig.Recv().Type().(*types.Pointer)
+	_, tPtr := t.(*types.Pointer)
+	if recvPtr != tPtr {
+		return nil
+	}
+	if fn := prog.FuncValue(obj); fn != nil && len(fn.Blocks) > 0 {
+		return fn
+	}
+	if fn := prog.FuncValue(obj.Origin()); fn != nil && len(fn.Blocks) > 0 {
+		return fn
+	}
+	return nil
+}
+
 func resolveBody(f *ssa.Function) *ssa.Function {
 	if f == nil {
 		return nil
@@ -1693,17 +1735,31 @@ func (ex *explorer) doCall(st *State, in ssa.Instruction, c *ssa.CallCommon, val
 		bind(&Term{Op: "pure", Aux: name, Args: args})
 		return false
 	}
-	if c.IsInvoke() {
-		r := &Term{Op: "call", Aux: site + f.id, Args: append([]*Term{{Op: "method", Aux: c.Method.Name(), Meth: c.Method}}, args...)}
-		ex.emit(st, Step{Kind: KCall, Instr: in, Method: c.Method, A: args, R: r})
-		bind(r)
-		ex.havocArgs(st, args[1:], site)
-		return false
-	}
 	var fn *ssa.Function
 	var bindings []*Term
 	var calleeT *Term
-	if sf := c.StaticCallee(); sf != nil {
+	var devirt *ssa.Function
+	if c.IsInvoke() {
+		// an invocation on a collaborator this very analysis converted to the interface: the method of its
+		// concrete type (a locally built strategy / worker object behind a small internal interface)
+		if t, ok := st.dyn[args[0].Key()]; ok && st.dyn != nil {
+			devirt = concreteMethod(f.fn.Prog, t, c.Method)
+			if devirt != nil && !ex.canInlineAt(st, resolveBody(devirt), site) {
+				devirt = nil // not followed: the invocation stays the event the rules know
+			}
+		}
+		if devirt == nil {
+			r := &Term{Op: "call", Aux: site + f.id, Args: append([]*Term{{Op: "method", Aux: c.Method.Name(), Meth: c.Method}}, args...)}
+			ex.emit(st, Step{Kind: KCall, Instr: in, Method: c.Method, A: args, R: r})
+			bind(r)
+			ex.havocArgs(st, args[1:], site)
+			return false
+		}
+	}
+	if devirt != nil {
+		fn = resolveBody(devirt)
+		calleeT = &Term{Op: "fn", Fn: fn}
+	} else if sf := c.StaticCallee(); sf != nil {
 		fn = resolveBody(sf)
 		if mc, ok := c.Value.(*ssa.MakeClosure); ok {
 			ct := ex.eval(st, mc)
@@ -1745,7 +1801,11 @@ func (ex *explorer) doCall(st *State, in ssa.Instruction, c *ssa.CallCommon, val
 		}
 	}
 	if fn != nil && ex.canInlineAt(st, fn, site) {
-		ex.pushFrame(st, fn, args, bindings, site, blk, idx+1, val, false, in, c.StaticCallee())
+		inst := c.StaticCallee()
+		if devirt != nil {
+			inst = devirt
+		}
+		ex.pushFrame(st, fn, args, bindings, site, blk, idx+1, val, false, in, inst)
 		return true
 	}
 	r := &Term{Op: "call", Aux: site + f.id, Args: append([]*Term{calleeT}, args...)}
@@ -1863,6 +1923,11 @@ func (ex *explorer) simple(st *State, in ssa.Instruction) {
 	case *ssa.MakeInterface:
 		x := ex.eval(st, in.X)
 		f.env[in] = x
+		if st.dyn != nil && !types.IsInterface(in.X.Type()) && !x.IsConst() {
+			if _, isTP := in.X.Type().(*types.TypeParam); !isTP {
+				st.dyn[x.Key()] = f.ty(in.X.Type())
+			}
+		}
 	case *ssa.ChangeType:
 		f.env[in] = ex.eval(st, in.X)
 	case *ssa.ChangeInterface:
@@ -1933,6 +1998,14 @@ func (ex *explorer) fillCall(st *State, s *Step, c *ssa.CallCommon) {
 		s.A = append(s.A, ex.eval(st, a))
 	}
 	if c.IsInvoke() {
+		// go/defer of a method of a collaborator converted to the interface on this path: its concrete method
+		if t, ok := st.dyn[s.A[0].Key()]; ok && st.dyn != nil {
+			if m := concreteMethod(st.top().fn.Prog, t, c.Method); m != nil {
+				s.Method = nil
+				s.Static = resolveBody(m)
+				s.Callee = &Term{Op: "fn", Fn: s.Static}
+			}
+		}
 		return
 	}
 	if b, ok := c.Value.(*ssa.Builtin); ok {
